@@ -327,22 +327,40 @@ def hasFlonum (types : List Ty) : Nat → Ty → Int → Int → Int → Except 
     else
       .ok (offset < lo || hi ≤ offset || ty.kind == .float || ty.kind == .double)
 
-def hasFlonum1 (env : Env) (ty : Ty) : M Bool :=
-  liftE (hasFlonum env.types (env.types.length + 1) ty 0 8 0)
+/-- `has_flonum1(ty)` / `has_flonum2(ty)` -/
+def hasFlonum1E (env : Env) (ty : Ty) : Except String Bool :=
+  hasFlonum env.types (env.types.length + 1) ty 0 8 0
 
-def hasFlonum2 (env : Env) (ty : Ty) : M Bool :=
-  liftE (hasFlonum env.types (env.types.length + 1) ty 8 16 0)
+def hasFlonum2E (env : Env) (ty : Ty) : Except String Bool :=
+  hasFlonum env.types (env.types.length + 1) ty 8 16 0
+
+def hasFlonum1 (env : Env) (ty : Ty) : M Bool := liftE (hasFlonum1E env ty)
+def hasFlonum2 (env : Env) (ty : Ty) : M Bool := liftE (hasFlonum2E env ty)
+
+/-- the register classes of a struct/union of at most 16 bytes: (ngp, nfp) = how many
+    general-purpose and SSE registers its one or two eightbytes take -/
+def structClsE (env : Env) (ty : Ty) : Except String (Int × Int) :=
+  match hasFlonum1E env ty with
+  | .error e => .error e
+  | .ok fp1 =>
+    if ty.size > 8 then
+      match hasFlonum2E env ty with
+      | .error e => .error e
+      | .ok fp2 => .ok ((if fp1 then 0 else 1) + (if fp2 then 0 else 1), (if fp1 then 1 else 0) + (if fp2 then 1 else 0))
+    else .ok (if fp1 then 0 else 1, if fp1 then 1 else 0)
+
+/-- that many registers of each kind are still free -/
+def fitsRegs (gp fp ngp nfp : Int) : Bool :=
+  (nfp == 0 || fp + nfp ≤ FP_MAX) && (ngp == 0 || gp + ngp ≤ GP_MAX)
 
 /-- `struct_in_regs(ty, gp, fp, &ngp, &nfp)`: returns (fits, ngp, nfp) -/
-def structInRegs (env : Env) (ty : Ty) (gp fp : Int) : M (Bool × Int × Int) := do
-  let fp1 ← hasFlonum1 env ty
-  let nfp : Int := if fp1 then 1 else 0
-  let ngp : Int := if fp1 then 0 else 1
-  let (ngp, nfp) ← if ty.size > 8 then do
-      let fp2 ← hasFlonum2 env ty
-      pure (ngp + (if fp2 then 0 else 1), nfp + (if fp2 then 1 else 0))
-    else pure (ngp, nfp)
-  pure ((nfp == 0 || fp + nfp ≤ FP_MAX) && (ngp == 0 || gp + ngp ≤ GP_MAX), ngp, nfp)
+def structInRegsE (env : Env) (ty : Ty) (gp fp : Int) : Except String (Bool × Int × Int) :=
+  match structClsE env ty with
+  | .error e => .error e
+  | .ok (ngp, nfp) => .ok (fitsRegs gp fp ngp nfp, ngp, nfp)
+
+def structInRegs (env : Env) (ty : Ty) (gp fp : Int) : M (Bool × Int × Int) :=
+  liftE (structInRegsE env ty gp fp)
 
 /-! ## function calls -/
 
@@ -376,43 +394,42 @@ def pushArgs2 : List (Arg × Bool) → Bool → M Unit
         addDepth 2
       | _ => push
 
+/-- one round of the classification loop of `push_args`, for an argument of type `ty` when `gp`/`fp`
+    registers are taken: (`pass_by_stack`, gp, fp after it, stack slots it takes) -/
+def classifyArgE (env : Env) (ty : Ty) (gp fp : Int) : Except String (Bool × Int × Int × Int) :=
+  match ty.kind with
+  | .struct | .union =>
+    if ty.size > 16 then do
+      let sz ← alignTo ty.size 8
+      pure (true, gp, fp, sz.tdiv 8)
+    else do
+      let (fits, ngp, nfp) ← structInRegsE env ty gp fp
+      if fits then pure (false, gp + ngp, fp + nfp, 0)
+      else do
+        let sz ← alignTo ty.size 8
+        pure (true, gp, fp, sz.tdiv 8)
+  | .float | .double =>
+    if fp ≥ FP_MAX then pure (true, gp, fp + 1, 1) else pure (false, gp, fp + 1, 0)
+  | .ldouble => pure (true, gp, fp, 2)
+  | _ =>
+    if gp ≥ GP_MAX then pure (true, gp + 1, fp, 1) else pure (false, gp + 1, fp, 0)
+
 /-- the classification loop of `push_args`: (`pass_by_stack` of every argument, stack) -/
-def classifyArgs (env : Env) : List Arg → Int → Int → Int → M (List Bool × Int)
-  | [], _, _, stack => pure ([], stack)
-  | arg :: rest, gp, fp, stack => do
-    let ty ← needTy "arg->ty" arg.ty
-    match ty.kind with
-    | .struct | .union =>
-      if ty.size > 16 then do
-        let sz ← liftE (alignTo ty.size 8)
-        let (bs, st) ← classifyArgs env rest gp fp (stack + sz.tdiv 8)
-        pure (true :: bs, st)
-      else do
-        let (fits, ngp, nfp) ← structInRegs env ty gp fp
-        if fits then do
-          let (bs, st) ← classifyArgs env rest (gp + ngp) (fp + nfp) stack
-          pure (false :: bs, st)
-        else do
-          let sz ← liftE (alignTo ty.size 8)
-          let (bs, st) ← classifyArgs env rest gp fp (stack + sz.tdiv 8)
-          pure (true :: bs, st)
-    | .float | .double =>
-      if fp ≥ FP_MAX then do
-        let (bs, st) ← classifyArgs env rest gp (fp + 1) (stack + 1)
-        pure (true :: bs, st)
-      else do
-        let (bs, st) ← classifyArgs env rest gp (fp + 1) stack
-        pure (false :: bs, st)
-    | .ldouble => do
-      let (bs, st) ← classifyArgs env rest gp fp (stack + 2)
-      pure (true :: bs, st)
-    | _ =>
-      if gp ≥ GP_MAX then do
-        let (bs, st) ← classifyArgs env rest (gp + 1) fp (stack + 1)
-        pure (true :: bs, st)
-      else do
-        let (bs, st) ← classifyArgs env rest (gp + 1) fp stack
-        pure (false :: bs, st)
+def classifyArgsE (env : Env) : List (Option Ty) → Int → Int → Int → Except String (List Bool × Int)
+  | [], _, _, stack => .ok ([], stack)
+  | ty? :: rest, gp, fp, stack =>
+    match ty? with
+    | none => .error "NULL dereference: arg->ty"
+    | some ty =>
+      match classifyArgE env ty gp fp with
+      | .error e => .error e
+      | .ok (b, gp', fp', k) =>
+        match classifyArgsE env rest gp' fp' (stack + k) with
+        | .error e => .error e
+        | .ok (bs, st) => .ok (b :: bs, st)
+
+def classifyArgs (env : Env) (args : List Arg) (gp fp stack : Int) : M (List Bool × Int) :=
+  liftE (classifyArgsE env (args.map (·.ty)) gp fp stack)
 
 /-- `node->ret_buffer && node->ty->size > 16` -/
 def bigRet (i : NInfo) (retBuffer : Option Var) : M Bool :=
@@ -443,34 +460,43 @@ def pushArgs (env : Env) (i : NInfo) (retBuffer : Option Var) (args : List Arg) 
     push
   pure stack
 
+/-- `pop(argreg64[gp])` -/
+def popGp (gp : Int) : M Unit := do
+  pop (← argreg argreg64 gp)
+
+/-- one round of the register-loading loop of the `ND_FUNCALL` arm, for an argument of type `ty`
+    when `gp`/`fp` registers are loaded: pops what was pushed for it, returns (gp, fp) after it -/
+def popArg (env : Env) (ty : Ty) (gp fp : Int) : M (Int × Int) :=
+  match ty.kind with
+  | .struct | .union =>
+    if ty.size > 16 then pure (gp, fp)
+    else do
+      let (fits, _, _) ← structInRegs env ty gp fp
+      if fits then do
+        let f1 ← hasFlonum1 env ty
+        let (gp, fp) ← if f1 then do popf fp.toNat; pure (gp, fp + 1)
+                       else do popGp gp; pure (gp + 1, fp)
+        if ty.size > 8 then do
+          let f2 ← hasFlonum2 env ty
+          if f2 then do popf fp.toNat; pure (gp, fp + 1)
+          else do popGp gp; pure (gp + 1, fp)
+        else pure (gp, fp)
+      else pure (gp, fp)
+  | .float | .double =>
+    if fp < FP_MAX then do popf fp.toNat; pure (gp, fp + 1)
+    else pure (gp, fp)
+  | .ldouble => pure (gp, fp)
+  | _ =>
+    if gp < GP_MAX then do popGp gp; pure (gp + 1, fp)
+    else pure (gp, fp)
+
 /-- the register-loading loop of the `ND_FUNCALL` arm; returns the final (gp, fp) -/
 def popArgs (env : Env) : List Arg → Int → Int → M (Int × Int)
   | [], gp, fp => pure (gp, fp)
   | arg :: rest, gp, fp => do
     let ty ← needTy "arg->ty" arg.ty
-    match ty.kind with
-    | .struct | .union =>
-      if ty.size > 16 then popArgs env rest gp fp
-      else do
-        let (fits, _, _) ← structInRegs env ty gp fp
-        if fits then do
-          let f1 ← hasFlonum1 env ty
-          let (gp, fp) ← if f1 then do popf fp.toNat; pure (gp, fp + 1)
-                         else do pop (← argreg argreg64 gp); pure (gp + 1, fp)
-          let (gp, fp) ← if ty.size > 8 then do
-              let f2 ← hasFlonum2 env ty
-              if f2 then do popf fp.toNat; pure (gp, fp + 1)
-              else do pop (← argreg argreg64 gp); pure (gp + 1, fp)
-            else pure (gp, fp)
-          popArgs env rest gp fp
-        else popArgs env rest gp fp
-    | .float | .double =>
-      if fp < FP_MAX then do popf fp.toNat; popArgs env rest gp (fp + 1)
-      else popArgs env rest gp fp
-    | .ldouble => popArgs env rest gp fp
-    | _ =>
-      if gp < GP_MAX then do pop (← argreg argreg64 gp); popArgs env rest (gp + 1) fp
-      else popArgs env rest gp fp
+    let (gp, fp) ← popArg env ty gp fp
+    popArgs env rest gp fp
 
 /-- `mov %al, off+i(%rbp); shr $8, %rax` for i in [lo, hi) -/
 def retBytes (reg1 reg2 : String) (off : Int) : Nat → Nat → List Line
@@ -728,7 +754,7 @@ def funcallArm (env : Env) (i : NInfo) (isAlloca : M Bool) (fn : M Unit) (retBuf
     -- If the return type is a large struct/union, the caller passes
     -- a pointer to a buffer as if it were the first argument.
     let big ← bigRet i retBuffer
-    let gp0 : Int ← if big then do pop (← argreg argreg64 0); pure 1 else pure 0
+    let gp0 : Int ← if big then do popGp 0; pure 1 else pure 0
     let (_, fp) ← popArgs env args gp0 0
     emit (ins2 "mov" rax (.r "%r10"))
     emit (ins2 "mov" (.i fp) rax)
@@ -1201,9 +1227,9 @@ def paramOffsets (env : Env) : List Var → Int → Int → Int → List (Int ×
     match ty.kind with
     | .struct | .union =>
       if ty.size ≤ 16 then
-        match structInRegs env ty gp fp {} with
+        match structInRegsE env ty gp fp with
         | .error e => .error e
-        | .ok ((fits, ngp, nfp), _, _) =>
+        | .ok (fits, ngp, nfp) =>
           if fits then paramOffsets env rest top (gp + ngp) (fp + nfp) acc
           else onStack gp fp
       else onStack gp fp
